@@ -388,6 +388,10 @@ FIXED += [
         _c("Prog", "", [("a", ("sym", "Stmt")), ("b", ("sym", "Stmt"))]),
         _c("Skip", "Stmt", [("v", I01)]), _c("Not", "Stmt", [("s", ("sym", "Stmt"))]),
         _c("Blk", "Stmt", [("p", ("sym", "Prog"))])]},
+    # weighted productions whose weights do not add up to a power of two
+    {"id": "weighted", "start": "Expr", "classes": [
+        _c("Expr", "", abstract=True), _c("Lit", "Expr", [("v", I01)], weight=3),
+        _c("Neg", "Expr", [("e", E)], weight=2), _c("Plus", "Expr", [("l", E), ("r", E)], weight=1)]},
     # concrete start symbol that is recursive only indirectly, through a sized list of an abstract type
     {"id": "blocks", "start": "Block", "classes": [
         _c("Stmt", "", abstract=True),
